@@ -58,7 +58,19 @@ fn main() {
             let mut cfg = RunCfg::reference();
             cfg.nworkers = nworkers;
             cfg.clock_offsets = vec![0; nworkers];
-            let ops: Vec<ClientOp> = src.split(";;").map(|l| ClientOp::Line { session: 0, src: l.to_string() }).collect();
+            // lines separated by `;;`; a line starting with `1>` goes to a second session, `run>` is a run-path program
+            let ops: Vec<ClientOp> = src
+                .split(";;")
+                .map(|l| {
+                    if let Some(r) = l.strip_prefix("1>") {
+                        ClientOp::Line { session: 1, src: r.to_string() }
+                    } else if let Some(r) = l.strip_prefix("run>") {
+                        ClientOp::Run { src: r.to_string(), shake: false, json: false, wait: true }
+                    } else {
+                        ClientOp::Line { session: 0, src: l.to_string() }
+                    }
+                })
+                .collect();
             let sched = if seed == 0 { SchedSpec::fair() } else { SchedSpec::draw(&mut rng, nworkers, true, 200) };
             let spec = RunSpec { cfg, ops, modules: vec![], sched, seed, replay: None, est_len: 200, tail_bound: 0, tail_from: None };
             let (r, _) = run::execute_isolated(spec, NoMonitor, true, seed);
